@@ -227,13 +227,20 @@ impl Exec {
             } else {
                 http_serve::streaming_body(&req)
             };
+            // `Some(u32::MAX)` is not a level: it asks for the two final calls in the other order
+            let level_first = pre.contains(&Some(u32::MAX));
             for c in pre {
                 b = match c {
+                    Some(u32::MAX) => b,
                     Some(l) => b.with_gzip_level(*l),
                     None => b.with_chunk_size(12345),
                 };
             }
-            b.with_chunk_size(cfg.chunk).with_gzip_level(cfg.level).build::<VBuf, HErr>()
+            if level_first {
+                b.with_gzip_level(cfg.level).with_chunk_size(cfg.chunk).build::<VBuf, HErr>()
+            } else {
+                b.with_chunk_size(cfg.chunk).with_gzip_level(cfg.level).build::<VBuf, HErr>()
+            }
         }))
         .map_err(crate::drive::panic_msg)?;
         let resp_headers: Vec<(String, Vec<u8>)> = resp
@@ -1048,7 +1055,7 @@ pub fn run_c09(run: &mut Run) -> Stats {
             }
         }
     }
-    for &c in &tier.pick(vec![7usize, 65536], vec![1, 7, 4096, 65536]) {
+    for &c in &tier.pick(vec![7usize, 512, 4096, 65536], vec![1, 7, 512, 4096, 16384, 65536]) {
         for &l in &tier.pick(vec![1u32, 6], vec![1, 2, 6, 9]) {
             cfgs.push((Config { chunk: c, level: l, accept: Some("gzip".into()), payload: Payload::Rand, fresh_wakers: false }, big.clone()));
         }
